@@ -6,10 +6,15 @@
      S <csv|-> <op...>                the LIST MODEL (spec) of the operation on that list
      C <kind> <a> <b> <x>             range contains
      E <w> <kind> <a> <b> <n>         materialise: all elements (finite kinds) or the first n (endless)
+     NL|NF|NS <csv|-> <nop...>        the same three for iterables of Int? (csv items: an integer or n = nil), instance C23_Nil:
+                                      nop = contains <e> | index_of <e> | mapor <d> | fold <i> <c> <d> | take/drop <k> | <nullary> |
+                                      <pred op> <npred>;  npred = isnil | notnil | eq:c | ne:c | true | false | thr:<e>:<npred>
+                                      a nil ELEMENT result prints nil, an absent one E:nf (first/last/find) or nil (the try_ variants)
    closures: fn1 = add:c | mul:c | thr:t:<fn1> ; pred = even | gt:c | lt:c | eq:c | true | false | thr:t:<pred> ;
              fn2 = add | sub | muladd:c | thr:t:<fn2>
    observable: Elk inspect syntax: 5  true  nil  [1, 2]  %[1, 2]  E:oor  E:nf  E:s:boom  undefined  nofuel *)
 open C23_Iter
+open C23_Nil
 
 let rec nat_of_int i = if i <= 0 then Datatypes.O else Datatypes.S (nat_of_int (i - 1))
 let z = Zio.z_of_string
@@ -58,12 +63,44 @@ let show = function Val v -> show_val v | Thrown e -> show_err e | Undef -> "und
 let list_of s = if s = "-" || s = "" then [] else List.map z (String.split_on_char ',' s)
 let succ_of w = if w = "0" then BinInt.Z.succ else succ_wrap_s (z w)
 
+(* ---- nilable elements ---- *)
+let el s = if s = "n" then None else Some (z s)
+let show_el = function None -> "nil" | Some i -> zs i
+let show_ellist l = "[" ^ String.concat ", " (List.map show_el l) ^ "]"
+let rec npred_of = function
+  | [ "isnil" ] -> NIsNil | [ "notnil" ] -> NNotNil | [ "eq"; c ] -> NEq (z c) | [ "ne"; c ] -> NNe (z c)
+  | [ "true" ] -> NConst true | [ "false" ] -> NConst false
+  | "thr" :: t :: r -> NThrowAt (el t, npred_of r) | _ -> failwith "npred"
+let nop_of = function
+  | [ "contains"; x ] -> NContains (el x) | [ "is_empty" ] -> NIsEmpty | [ "first" ] -> NFirst
+  | [ "try_first" ] -> NTryFirst | [ "last" ] -> NLast | [ "try_last" ] -> NTryLast
+  | [ "mapor"; d ] -> NMapOr (z d) | [ "filter"; p ] -> NFilter (npred_of (sp p))
+  | [ "reject"; p ] -> NReject (npred_of (sp p)) | [ "count"; p ] -> NCount (npred_of (sp p))
+  | [ "any"; p ] -> NAny (npred_of (sp p)) | [ "every"; p ] -> NEvery (npred_of (sp p))
+  | [ "find"; p ] -> NFind (npred_of (sp p)) | [ "try_find"; p ] -> NTryFind (npred_of (sp p))
+  | [ "index_of"; x ] -> NIndexOf (el x) | [ "find_index"; p ] -> NFindIndex (npred_of (sp p))
+  | [ "drop"; n ] -> NDrop (z n) | [ "drop_while"; p ] -> NDropWhile (npred_of (sp p))
+  | [ "take"; n ] -> NTake (z n) | [ "take_while"; p ] -> NTakeWhile (npred_of (sp p))
+  | [ "fold"; i; c; d ] -> NFold (z i, z c, z d)
+  | [ "to_list" ] | [ "to_collection" ] -> NToList | [ "to_tuple" ] | [ "to_immutable_collection" ] -> NToTuple
+  | [ "length" ] -> NLength
+  | l -> failwith ("nop " ^ String.concat " " l)
+let show_nval = function
+  | NVElem e -> show_el e | NVOpt None -> "nil" | NVOpt (Some e) -> show_el e
+  | NVBool b -> if b then "true" else "false" | NVInt i -> zs i
+  | NVList l -> show_ellist l | NVTuple l -> "%" ^ show_ellist l | NVZList l -> show_list l
+let nshow = function Val v -> show_nval v | Thrown e -> show_err e | Undef -> "undefined" | NoFuel -> "nofuel"
+let ellist_of s = if s = "-" || s = "" then [] else List.map el (String.split_on_char ',' s)
+
 let answer toks =
   match toks with
   | "R" :: w :: k :: a :: b :: op -> show (run_range (nat_of_int !fuel) (z w) (kind_of k) (z a) (z b) (op_of op))
   | "L" :: l :: op -> show (run_listiter (nat_of_int !fuel) (list_of l) (op_of op))
   | "F" :: l :: op -> show (run_failiter (nat_of_int !fuel) (list_of l) (op_of op))
   | "S" :: l :: op -> show (run_list (list_of l) (op_of op))
+  | "NL" :: l :: op -> nshow (run_nlistiter (nat_of_int !fuel) (ellist_of l) (nop_of op))
+  | "NF" :: l :: op -> nshow (run_nfailiter (nat_of_int !fuel) (ellist_of l) (nop_of op))
+  | "NS" :: l :: op -> nshow (run_nlist (ellist_of l) (nop_of op))
   | [ "C"; k; a; b; x ] -> if rcontains (kind_of k) (z a) (z b) (z x) then "true" else "false"
   | [ ("E" | "A"); w; k; a; b; n ] -> (
       let kd = kind_of k in
